@@ -427,7 +427,7 @@ func c19Body(c *core.Ctx) {
 			jb, _ := json.Marshal(sp)
 			sf := filepath.Join(root, fmt.Sprintf("spec-%v.json", control))
 			_ = os.WriteFile(sf, jb, 0644)
-			res, err := gate.Run(gate.Opts{LogExec: true, Env: []string{"TZ=UTC", "VERIF_C19_PRESET=set-by-the-server"}, Timeout: 90 * time.Second}, c.Scratch, self, "c19worker", sf)
+			res, err := gate.Run(gate.Opts{LogExec: true, Env: []string{"TZ=UTC", "VERIF_C19_PRESET=set-by-the-server", "1=positional-one-of-an-earlier-load", "2=positional-two", "3=positional-three", "4=positional-four"}, Timeout: 90 * time.Second}, c.Scratch, self, "c19worker", sf)
 			if err != nil || res == nil {
 				return nil, nil
 			}
@@ -503,7 +503,7 @@ func c19Body(c *core.Ctx) {
 			for _, ph := range cph {
 				has := func(v string) bool {
 					for _, d := range ph.EnvDiff {
-						if d == "+"+v {
+						if d == "+"+v || d == "~"+v {
 							return true
 						}
 					}
